@@ -1,0 +1,15 @@
+//go:build verif
+
+package cgroup
+
+// NewV2AtVerif returns a v2 handle on an arbitrary directory (synthetic
+// statistics files) for the verification harness (build tag verif only).
+func NewV2AtVerif(path string, ct *Controllers) *V2 {
+	return &V2{path: path, control: ct, existing: true}
+}
+
+// NewV1AtVerif returns a v1 handle whose controllers all point at dir.
+func NewV1AtVerif(dir string) *V1 {
+	c := newV1Controller(dir)
+	return &V1{prefix: dir, cpu: c, cpuset: c, cpuacct: c, memory: c, pids: c, existing: true}
+}
